@@ -102,7 +102,7 @@ theorem translate_spec (lr : Int × Int) :
     · simp [h1, h2]
 
 /-! ### non-vacuity: waiter, notifier with the lock, return with the lock held -/
-example : (run {} [.mutexInit 5, .create 1, .create 2,
+example : (run {} [.mutexInit 5 false, .create 1, .create 2,
     .call 1 (.lock 5 none), .mutexTry 5 true 1, .retLock 1 5 0 0,
     .call 1 (.cvwait 6 5 none), .sleep 1 (some 6) none, .mutexUnlock 5 none none 2,
     .call 2 (.lock 5 none), .mutexTry 5 true 2, .retLock 2 5 0 0,
